@@ -167,7 +167,16 @@ func (d *docEntry) materialise(ids []string) fileset {
 }
 
 func (d *docEntry) runIDs(e *env, ids []string) []res {
+	if e.remote != nil {
+		return e.remote.do(request{Entry: d.name, Devs: ids}).results
+	}
 	return d.exec(e, d.materialise(ids))
+}
+
+// Serve executes one case in this process (case server side).
+func (d *docEntry) Serve(e *env, req request) {
+	d.prepare()
+	d.exec(e, d.materialise(req.Devs))
 }
 
 // runMemo is runIDs with a per-worker memo (used by minimisation only).
@@ -175,6 +184,10 @@ func (d *docEntry) runMemo(e *env, ids []string) []res {
 	k := strings.Join(ids, "\x00")
 	if r, ok := d.memo[k]; ok {
 		return r
+	}
+	if kb := e.knownSubset(d.name, ids); kb != nil {
+		// already known to kill the process: do not pay for another child
+		return []res{kb.Res}
 	}
 	r := d.runIDs(e, ids)
 	if len(d.memo) < 200000 {
@@ -228,6 +241,9 @@ func (d *docEntry) minimise(e *env, ids []string, b res) []string {
 }
 
 func (d *docEntry) keyFor(ids []string, b res) string {
+	if b.Kind == "fatal" && b.Site != "" {
+		b.Kind = "fatal:" + b.Site
+	}
 	var cls []string
 	for _, id := range ids {
 		if dv := d.byID[id]; dv != nil {
@@ -258,6 +274,9 @@ func (d *docEntry) violations(e *env, ids []string, rs []res) []core.Violation {
 			if x := hasBad(d.runMemo(e, min), b.Stage, b.Kind, b.Site); x != nil {
 				bb = *x
 			}
+		}
+		if bb.Kind == "fatal" || bb.Kind == "hang" {
+			e.addKnown(badSet{Entry: d.name, IDs: min, Res: bb})
 		}
 		key := d.keyFor(min, bb)
 		if seen[key] {
@@ -327,6 +346,14 @@ func (d *docEntry) Explore(e *env) {
 	one := func(ids []string) {
 		if !c.NextMine() {
 			return
+		}
+		if len(ids) >= 2 {
+			if kb := e.knownSubset(d.name, ids); kb != nil {
+				// a sub-combination already kills the process (reported on its own)
+				c.Count("pruned_supersets_of_process_killing_cases", 1)
+				c.Outcome(d.name + ":pruned:superset-of-" + kb.Res.Kind)
+				return
+			}
 		}
 		rd := replayData{Entry: d.name, Devs: ids}
 		rd.Key = d.keyFor(ids, res{Stage: "any", Kind: "crash"})
